@@ -210,4 +210,26 @@ theorem filter_flatMap_key {α β : Type} [DecidableEq α] {l : List α} (hnd : 
       simp only [h1, List.nil_append]
       by_cases hk : k ∈ ss <;> simp [hk, this]
 
+/-! ### moved here from `Props/C06.lean` (shared with `Proofs/C06WF.lean`, `Proofs/C06Spec.lean`) -/
+
+theorem flatMap_congr' {α β : Type} {l : List α} {f g : α → List β} (h : ∀ x ∈ l, f x = g x) :
+    l.flatMap f = l.flatMap g := by
+  induction l with
+  | nil => rfl
+  | cons x xs ih =>
+    simp only [List.flatMap_cons, h x (List.mem_cons_self ..)]
+    rw [ih fun y hy => h y (List.mem_cons_of_mem _ hy)]
+
+theorem nodup_of_nodup_map {α β : Type} (f : α → β) : ∀ {l : List α}, (l.map f).Nodup → l.Nodup
+  | [], _ => List.nodup_nil
+  | x :: xs, h => by
+    simp only [List.map_cons, List.nodup_cons] at h ⊢
+    exact ⟨fun hx => h.1 (List.mem_map.2 ⟨x, hx, rfl⟩), nodup_of_nodup_map f h.2⟩
+
+/-- one step of `get_wrapped_packs`. -/
+def wrapOne (f : Formats) (p : Nat) : Except Err (List WPack) :=
+  if (f.pack p).type ≠ 2 then .ok [wrapRegular f p] else wrapMatrix f p
+
+theorem wrappedPacks_eq (f : Formats) : wrappedPacks f = flatMapE (wrapOne f) (List.range f.packs.length) := rfl
+
 end Earverif.Adm
